@@ -17,6 +17,8 @@ C_ge   == <<"cmp", "k", ">=", <<"lit", IntV(0)>> >>
 C_x    == <<"cmp", "A.x", "==", <<"lit", V("str", NoNum, <<97>>, <<>>)>> >>
 C_nul  == <<"cmp", "A.x", "==", <<"lit", Null>> >>
 C_ar   == <<"test", Flat(<<Kp, Lit(2)>>, <<"%">>), "==", IntV(0)>>
+C_neg  == <<"test", Flat(<<Kp, Lit(3)>>, <<"-">>), "==", IntV(-1)>>          \* k - 3 == -1 : a negative literal after an arithmetic left side
+C_nne  == <<"test", Flat(<<Kp, Lit(4)>>, <<"-">>), "!=", IntV(-2)>>          \* k - 4 != -2
 C_and  == <<"and", C_ge, <<"not", C_x>> >>
 C_ref  == <<"cmp", "k", "<", <<"ar", Flat(<< <<"p", "A.y">>, Lit(1)>>, <<"+">>)>> >>
 (* action lists *)
@@ -38,7 +40,9 @@ RuleTable == << R("inc",   0, "MAIN", FALSE, FALSE, "",  -1, -1, C_lt,  A_inc),
                 R("lock",  0, "G1.sub", TRUE, FALSE, "", -1, -1, C_ge,  A_inc),
                 R("g1b",   7, "G1",   FALSE, TRUE,  "",  -1, -1, C_lt,  <<<<"focus", "MAIN">>>>),
                 R("ref",   0, "MAIN", FALSE, TRUE,  "",  -1, -1, C_ref, A_none),
-                R("bad",  -9, "MAIN", FALSE, FALSE, "",  -1, -1, C_ge,  A_bad) >>
+                R("bad",  -9, "MAIN", FALSE, FALSE, "",  -1, -1, C_ge,  A_bad),
+                R("neg",   3, "MAIN", FALSE, TRUE,  "",  -1, -1, C_neg, A_x),
+                R("nne",   2, "MAIN", FALSE, TRUE,  "",  -1, -1, C_nne, A_none) >>
 Paths == {"k", "A.x", "A.y"}
 FactVals == [k |-> {IntV(0), IntV(2), NumV(10)}, x |-> {V("str", NoNum, <<97>>, <<>>), IntV(1)}, y |-> {IntV(3)}]
 
